@@ -480,3 +480,8 @@ def run(ctx, rep):
     K.share(ctx, rep, "c08", lambda o: o.rule == "R08.1" and o.key.startswith("_dispatch_request: failure of"), "R16.5", floor=3)
     K.share(ctx, rep, "c11", lambda o: o.rule == "R11.3", "R16.5", floor=4)
     K.share(ctx, rep, "c05", lambda o: o.rule == "R05.3", "R16.5", floor=8)
+    # per-client objects do not share mutable state by accident (mutable default arguments, class-level tables)
+    from . import hygiene as H
+    for cq_ in sorted(q for q, c_ in ctx.repo.classes.items() if q.startswith("rpyc.core.service.") or q in (
+            K.CONN, "rpyc.core.channel.Channel", "rpyc.core.async_.AsyncResult")):
+        H.private_state(ctx, rep, "R16.3", cq_)
